@@ -284,8 +284,14 @@ fn main() {
     // 5b. per-connection state must not leak between replies: live sessions interleaving good commands and
     //     malformed requests in every order; after EACH request exactly the frames the model predicts for that
     //     read (one per decoded command, one error frame per protocol error), of the expected kind
-    if args.replay.is_none() {
-        session_part(&args, &mut rep, &known, &exe);
+    {
+        let mut scripted: Vec<Vec<Vec<u8>>> = vec![];
+        for (k, rest) in corpus_lines(&args.corpus.join("C22"), &args.replay) {
+            if k == "session" { if let Some(c) = parse_chunks(rest.split_whitespace().next().unwrap_or("-")) { scripted.push(c.into_iter().filter(|x| !x.is_empty()).collect()); } }
+        }
+        if args.replay.is_none() || !scripted.is_empty() {
+            session_part(&args, &mut rep, &known, &exe, scripted);
+        }
     }
 
     // 6. the forwarding branch (sharding): the only reply bytes not produced by RespValue::encode on
@@ -349,7 +355,7 @@ fn request(s: &mut std::net::TcpStream, req: &[u8], want: usize) -> (Vec<RespVal
     (got, buf.to_vec())
 }
 
-fn session_part(args: &Args, rep: &mut Report, known: &Known, exe: &std::path::Path) {
+fn session_part(args: &Args, rep: &mut Report, known: &Known, exe: &std::path::Path, scripted: Vec<Vec<Vec<u8>>>) {
     let enc = |v: &RespValue| { let mut b = Vec::new(); v.encode(&mut b).unwrap(); b };
     let remote = FakeRemote::start();
     let Some(live) = Live::start_with(remote.as_ref().map(|r| r.port)) else { rep.notes.push("live server did not come up; session part skipped".into()); return; };
@@ -363,7 +369,10 @@ fn session_part(args: &Args, rep: &mut Report, known: &Known, exe: &std::path::P
     ];
     // (label, requests: (bytes, Some(expected reply) for a good command))
     let mut sessions: Vec<(String, Vec<(Vec<u8>, Option<RespValue>)>)> = vec![];
+    rep.count_n("corpus_sessions", scripted.len() as u64);
+    for sc in scripted { sessions.push(("corpus".into(), sc.into_iter().map(|r| (r, None)).collect())); }
     for (bi, b) in bad.iter().enumerate() {
+        if args.replay.is_some() { break; }
         let g = |k: usize| { let (r, e) = &goods[(bi + k) % goods.len()]; (r.clone(), Some(e.clone())) };
         sessions.push(("good-bad".into(), vec![g(0), (b.to_vec(), None)]));
         sessions.push(("bad-good".into(), vec![(b.to_vec(), None), g(1)]));
@@ -376,7 +385,7 @@ fn session_part(args: &Args, rep: &mut Report, known: &Known, exe: &std::path::P
     // mixed with a forwarded reply (sharding): forwarded, bad, good
     let fwd_req = enc(&cmd(&[b"GRAPH.QUERY", b"remote", b"RETURN 1"]));
     let fwd_reply = bulk(b"from the owning node");
-    if remote.is_some() {
+    if remote.is_some() && args.replay.is_none() {
         for b in [bad[0], bad[7]] {
             sessions.push(("forwarded-bad-good".into(), vec![(fwd_req.clone(), Some(fwd_reply.clone())), (b.to_vec(), None), (goods[0].0.clone(), Some(goods[0].1.clone()))]));
             sessions.push(("good-bad-forwarded".into(), vec![(goods[1].0.clone(), Some(goods[1].1.clone())), (b.to_vec(), None), (fwd_req.clone(), Some(fwd_reply.clone()))]));
@@ -425,7 +434,8 @@ fn session_part(args: &Args, rep: &mut Report, known: &Known, exe: &std::path::P
         if let Some(what) = failure {
             let sig = format!("session-{}", label);
             rep.count(&format!("spec_violation:{}", sig));
-            let body = format!("# live session ({}): one request per write, replies collected after each\n{}", label, transcript.join("\n"));
+            let body = format!("session {}\n# live session ({}): one request per write, replies collected after each\n{}",
+                chunks_text(&reqs.iter().map(|r| r.0.clone()).collect::<Vec<_>>()), label, transcript.join("\n"));
             rep.spec_violation(known, &sig, &what, &body);
         }
     }
